@@ -164,7 +164,7 @@ PROPERTIES.update({
     "C19": {
         "modules": ["km", "purity"], "level": "other", "floor": 30,
         "assumptions": COMMON + [A["A2"], A["A8"]], "trusted": [T["Z3"]],
-        "explanation": "PROVED: the stability helpers return the published expressions per branch for float AND integer heights (no narrowing store), grid cell centres, downwind cells zero, negative-U path returns an empty footprint only when U < 0, symmetry of the closed form about the wind axis, rotations by multiples of 90 degrees are signed permutations of the grid axes, estimateZ0 without smoothing inverts the diabatic log law. The cell-by-cell closed form (power-product identity over ~10 nested quantities) is attempted by the exact normaliser in the thorough tier and otherwise covered by the bounded stand-in; convergence of the cell sum to the incomplete-gamma mass and median-smoothed estimateZ0 are bounded only.",
+        "explanation": "PROVED: the stability helpers return the published expressions per branch for float AND integer heights (no narrowing store), grid cell centres, downwind cells zero, NON-NEGATIVE: every upwind cell of the code's expression is strictly positive whenever U > 0 (helper postconditions phi_m, phi_c, m > 0 and 0 < n < 3/2 proved on the real helpers for every dtype combination; exp/pow/sqrt/gamma uninterpreted with ground positivity instances), negative-U path returns an empty footprint only when U < 0, symmetry of the closed form about the wind axis, rotations by multiples of 90 degrees are signed permutations of the grid axes, estimateZ0 without smoothing inverts the diabatic log law. The cell-by-cell closed form (power-product identity over ~10 nested quantities) is attempted by the exact normaliser in the thorough tier and otherwise covered by the bounded stand-in; convergence of the cell sum to the incomplete-gamma mass and median-smoothed estimateZ0 are bounded only.",
         "level_text": "Helper functions, geometry and inversion proved; the full closed-form product and the limit statements are bounded.",
         "level_note": "A1, A2, A8.",
     },
